@@ -8,11 +8,14 @@ against a real `DataCollection` on every check: `Impl.step` (= `step true`) mode
 `fix: F3-remove-data-detach`, `Old.step` (= `step false`) the code before it.  `specOk` is the very
 predicate the driver evaluates on the *implementation's* snapshots.
 
-Operations (`Op`): `append d`, `extend ds`, `remove d`, `clear`, `newGroup`, `removeGroup g`,
-`setState/setLabel/setStyle g v`, `merge ds`, `setItem key d` (`dc[key] = d`), `restore`
-(session save + load), and `doCmd add d` / `undo` / `redo`: the `AddData` / `RemoveData` commands
-run, undone and redone through a `CommandStack` (`RemoveData.undo` is `append`, `AddData.undo` is
-`remove`; command.py).
+Operations (`Op`): `append d`, `extend ds`, `insert i d`, `remove d`, `clear`, `newGroup`,
+`removeGroup g`, `setState/setLabel/setStyle g v`, `merge ds`, `setItem key d` (`dc[key] = d`),
+`restore` (session save + load), and `doCmd add d` / `undo` / `redo`: the `AddData` / `RemoveData`
+commands run, undone and redone through a `CommandStack`, as coded after
+`fix: F4b-add-remove-data-undo` (the command objects remember whether they changed the collection
+and where the dataset was; `RemoveData.undo` is `insert(index, data)`, `AddData.undo` is `remove`,
+each only if the command had an effect; command.py).  Any other operation may come between a
+command and its undo, so the recorded flag / position may be stale: the invariant holds anyway.
 -/
 namespace GlueVerif.C06
 open GlueVerif.Collection
@@ -45,12 +48,14 @@ theorem reachable_spec (n colors : Nat) (ops : List Op) :
   spec_of_inv _ (reachable_inv n colors ops)
 
 /-- Readable corollary, with the order the code actually maintains: in every reachable state each
-dataset of the collection carries its subsets in group order, each live group lists its subsets in
-dataset order, and a dataset outside the collection carries none. -/
+dataset of the collection carries its subsets in group order, each live group lists exactly one
+subset per dataset of the collection (a permutation of the collection: `insert` — hence the undo of
+`RemoveData` — places a dataset anywhere while its new subset goes to the end of `group.subsets`;
+see the example below), and a dataset outside the collection carries none. -/
 theorem reachable_ordered (n colors : Nat) (ops : List Op) :
     let st := Impl.run (init n colors) ops
     (∀ d ∈ st.datasets, (st.dsubs d).map (·.group) = st.groups) ∧
-    (∀ g ∈ st.groups, (st.gsubs g).map (·.data) = st.datasets.map some) ∧
+    (∀ g ∈ st.groups, ((st.gsubs g).map (·.data)).Perm (st.datasets.map some)) ∧
     (∀ d, d ∉ st.datasets → st.dsubs d = []) := by
   intro st
   have h := reachable_inv n colors ops
@@ -82,9 +87,29 @@ example :
 example :
     let st := Impl.run (init 2 7) [.doCmd true 0, .newGroup, .doCmd false 0, .newGroup, .undo, .undo, .redo]
     st.datasets = [0] ∧ st.dsubs 0 = [⟨3, some 0, 0⟩, ⟨4, some 0, 1⟩] ∧
-    st.done = [(true, 0)] ∧ st.undone = [(false, 0)] ∧
+    st.done = [⟨true, 0, true, 0⟩] ∧ st.undone = [⟨false, 0, true, 0⟩] ∧
     (Impl.run (init 2 7) [.doCmd true 0, .newGroup, .doCmd false 0, .newGroup, .undo]).dsubs 0
       = [⟨1, some 0, 0⟩, ⟨2, some 0, 1⟩] := by decide
+
+/-- position-sensitive: undoing the removal of the *first* of three datasets puts it back in front
+(`insert(0, d)`); its new subset is the last one the group lists — `group.subsets` is a
+permutation of the collection, not in its order — and the property predicate holds. -/
+example :
+    let st := Impl.run (init 3 7) [.extend [0, 1, 2], .newGroup, .doCmd false 0, .undo]
+    st.datasets = [0, 1, 2] ∧ (st.gsubs 0).map (·.data) = [some 1, some 2, some 0] ∧
+    st.dsubs 0 = [⟨3, some 0, 0⟩] ∧ st.undone = [⟨false, 0, true, 0⟩] ∧
+    specOk st (modelReads st) = true := by decide
+
+/-- commands without effect are undone without effect (`AddData` of a present dataset,
+`RemoveData` of an absent one), and a stale recorded position is clamped like `list.insert`:
+dataset 1 was removed from position 1, the collection was emptied directly, undo re-inserts it. -/
+example :
+    (Impl.run (init 3 7) [.append 0, .newGroup, .doCmd true 0, .undo, .doCmd false 1, .undo]).datasets = [0] ∧
+    (Impl.run (init 3 7) [.extend [0, 1], .newGroup, .doCmd false 1, .remove 0, .undo]).datasets = [1] ∧
+    (Impl.run (init 3 7) [.extend [0, 1], .newGroup, .doCmd false 1, .remove 0, .undo]).dsubs 1
+      = [⟨2, some 1, 0⟩] ∧
+    (Impl.run (init 3 7) [.extend [0, 1], .insert 1 2, .insert 9 2, .insert 0 5]).datasets = [0, 2, 1] := by
+  decide
 
 /-! ### witnesses: the code before `fix: F3-remove-data-detach` breaks the property (F3) -/
 
